@@ -136,7 +136,7 @@ def rule_mapping(ctx: Ctx):
     for p in ctx.paths(mm, inline=None, exc_edges="none"):
         for e in p.calls():
             f = show(expand1(e.term.func, p.events)) if isinstance(e.term.func, ast.Name) else ""
-            if f.startswith("registry.get_machine_cls("):
+            if f.startswith(("registry.get_machine_cls(", "get_machine_cls(")):
                 kw = {k.arg: show(k.value) for k in e.term.keywords}
                 ok = e.term.args and show(e.term.args[0]) == "self" and kw.get("state_field") == "self.state_field_name"
                 rep.check(bool(ok), "C10.access", e.loc(), "MachineMixin builds the machine over the model instance itself and its configured state field",
